@@ -136,3 +136,41 @@ def routing_records(trace_iter, results, rules_by_job):
                 rec.pop("_el", None)
                 yield rec
             yield {"ev": "done", "id": job, "ok": bool(ok)}
+
+
+def iter_records(trace_iter, results, progs_by_job, loop_id="L"):
+    """Events for spec/trace/IterTrace.tla (top-level loop `loop_id` of each job)."""
+    job = None
+    lock_ids = {}
+    rcount = {}
+    body_ids = set()
+    for e in trace_iter:
+        ev = e.get("ev")
+        if ev == "job":
+            job = e["id"]
+            lock_ids, rcount = {}, {}
+            prog = progs_by_job[job]
+            loop = next(n for n in prog["nodes"] if n["id"] == loop_id)
+            body_ids = {n["id"] for n in loop["body"] if n["op"] == "map_st"}
+            yield {"ev": "job", "id": job, "prog": prog, "loop": loop_id}
+        elif ev == "probe" and e["id"] in body_ids and e["el"]["k"] == "R":
+            key = (e["id"], e["th"])
+            rcount[key] = rcount.get(key, 0) + 1
+        elif ev == "state_read" and e["id"] in body_ids:
+            key = (e["id"], e["th"])
+            yield {"ev": "read", "th": e["th"], "round": rcount.get(key, 0) + 1, "state": small(e["state"])}
+        elif ev in ("lock", "unlock", "wait_ret"):
+            lid = lock_ids.setdefault(e["lock"], len(lock_ids) + 1)
+            yield {"ev": ev, "lock": lid, "gen": e["gen"], "want": e.get("want", 0)}
+        elif ev == "set_state":
+            lid = lock_ids.setdefault(e["lock"], len(lock_ids) + 1)
+            st = e["state"]
+            yield {"ev": "set_state", "lock": lid, "state": small(st) if isinstance(st, int) else -7}
+        elif ev == "leader":
+            st = e["state"]
+            yield {"ev": "leader", "round": e["round"], "cont": bool(e["cont"]),
+                   "state": small(st) if isinstance(st, int) else -7}
+        elif ev in ("done", "hang"):
+            r = results.get(e["id"], {})
+            ok = ev == "done" and all(h.get("ok") for h in r.get("hosts", [])) and not r.get("hang")
+            yield {"ev": "done", "id": e["id"], "ok": bool(ok)}
